@@ -701,7 +701,7 @@ def run_parkrestore(prog, ctx=None):
                         l = strip(n["a"], lvalue_to_rvalue=False)
                         if l.get("k") == "mem" and l.get("f") == R and (not rec or (l.get("rec") or "") == rec):
                             clears.append((b, i, n, l))
-            if not clears:
+            if not clears and not any(n.get("k") == "mem" and n.get("f") == R for b, i, n in f.walk_all()):
                 continue
             pids = {p["id"] for p in f.params}
             PK = Analysis.PK
@@ -734,6 +734,39 @@ def run_parkrestore(prog, ctx=None):
             st0 = an.entry_state()
             st0[PK] = "U"
             an.run(state=st0)
+            # reads of the text through the marker: a call that is handed X->R (or a local that holds it) as a string sees the
+            # terminator that was parked there, i.e. an empty text, unless the byte was put back first
+            mark_locals = set()
+            for b2, i2, m in f.walk_all():
+                if m.get("k") == "bin" and m.get("op") == "=":
+                    ll = strip(m["a"], lvalue_to_rvalue=False)
+                    if ll.get("k") == "ref" and "id" in ll["d"] and is_R(m["b"]):
+                        mark_locals.add(ll["d"]["id"])
+                elif m.get("k") == "decl":
+                    for v in m["vars"]:
+                        if v.get("init") is not None and is_R(v["init"]):
+                            mark_locals.add(v["id"])
+            for b2, i2, e2 in f.elements():
+                if e2.get("k") != "call" or not e2.get("args"):
+                    continue
+                for a in e2["args"]:
+                    x = strip(a, all_casts=True)
+                    via = None
+                    if is_R(x):
+                        via = norm(show(x, f))
+                    elif x.get("k") == "ref" and x["d"].get("id") in mark_locals:
+                        via = x["d"]["n"]
+                    if via is None:
+                        continue
+                    # the state in which the marker was loaded: at the call for X->R itself, at the assignment for a local
+                    sites = [(b2.id, i2)]
+                    if x.get("k") == "ref":
+                        sites = [(bb.id, ii) for bb, ii, ee in f.elements() if any(m.get("k") == "bin" and m.get("op") == "=" and strip(m["a"], lvalue_to_rvalue=False).get("k") == "ref"
+                                                                                  and strip(m["a"], lvalue_to_rvalue=False)["d"].get("id") == x["d"]["id"] and is_R(m["b"]) for m in walk_own(ee))] or sites
+                    bad = any(("U" in an.pre_parts.get(s2, {})) or ("*" in an.pre_parts.get(s2, {})) for s2 in sites)
+                    res.ob("%s:%s read through %s" % (f.qn, norm(show(e2, f))[:50], via), not bad, f, e2.get("l", f.line) or f.line,
+                           "" if not bad else "`%s` is handed the marker %s as text while the byte parked in %s may not have been put back: the text starts with the terminator that replaced it (an empty string)" % (
+                               norm(show(e2, f))[:70], via, S))
             for b, i, n, l in clears:
                 root = root_of(l["b"])
                 fresh = False
